@@ -61,6 +61,9 @@ def gen_cases(tier, seed):
                 cid = "%s-k%02d-%s-%s-%s" % (iname, j, emb, level, {1: "on", 0: "off", "default": "default"}[opt])
                 cases.append({"id": cid, "sig": [iname, j, emb, level, opt], "issuer": iname, "key": j, "embed": emb, "level": level,
                               "opt": opt, "assertion_issuer": None})
+                if emb in ("actual", "third") and opt != "default":
+                    cases.append({"id": cid + "-trusted-store", "sig": [iname, j, emb, level, opt, "embedded certificate in the trust store"], "issuer": iname, "key": j,
+                                  "embed": emb, "level": level, "opt": opt, "assertion_issuer": None, "trust": 1})
     # assertion issued (and named) by another IdP than the response
     for (ri, ai) in (("A-signing", "B-signing+encryption"), ("B-signing+encryption", "A-signing"), ("A-signing", "U-unknown"),
                      ("E-two-signing", "C-useless")):
@@ -168,7 +171,16 @@ def run_case(case, ctx):
     else:
         signed = xk.sign_element(xml, xk.SAML, "Assertion", aid, fed.key(j)[0], "rsa-sha256", cert_body)
     ctx.mark()
-    resp, exc = fed.deliver(sp, signed, {"id-req-1": "/"})
+    import os
+    trust = bool(case.get("trust"))
+    if trust:
+        # environment: the process-wide trust store of the crypto library contains the certificate embedded in the message (as it would
+        # for any certificate bought from a public CA); the tool inherits it
+        os.environ["SSL_CERT_DIR"] = os.path.join(env.VERIF, "fixtures", "trust-all")
+    try:
+        resp, exc = fed.deliver(sp, signed, {"id-req-1": "/"})
+    finally:
+        os.environ.pop("SSL_CERT_DIR", None)
     evs = [e for e in ctx.events() if not e.get("case", "").startswith("harness:")]
     accepted = resp is not None
     must_accept = j in sc and not IDPS[signer_issuer].get("validity")
@@ -177,7 +189,7 @@ def run_case(case, ctx):
     viol = []
     outcome = "accept" if accepted else "reject:" + (type(exc).__name__ if exc is not None else "None")
     what = "issuer %s (signing-capable metadata keys %s), signed with k%02d, embedded %s, level %s, only_use_keys_in_metadata=%s: %s" % (
-        signer_issuer, ["k%02d" % k for k in sc], j, "k%02d" % emb if emb is not None else ("RSAKeyValue of the signing key" if case["embed"] == "keyvalue" else "none"), case["level"], case["opt"] if case["opt"] == "default" else bool(case["opt"]), outcome)
+        signer_issuer, ["k%02d" % k for k in sc], j, ("k%02d" % emb + (" (in the process trust store)" if case.get("trust") else "")) if emb is not None else ("RSAKeyValue of the signing key" if case["embed"] == "keyvalue" else "none"), case["level"], case["opt"] if case["opt"] == "default" else bool(case["opt"]), outcome)
     if accepted and not (may_accept or fallback_ok):
         key = "C03/accepted-under-key-not-held-for-issuer"
         if case["embed"] == "keyvalue":
